@@ -45,6 +45,7 @@ struct Case {
     cache_size: usize,
     max_value_bytes: Option<usize>,
     chan_cap: usize,
+    version: String,
     keys: Vec<Key>,
     vals: Vec<Vec<u8>>,
     dists: Vec<U256>,
@@ -60,6 +61,33 @@ fn new_rt() -> tokio::runtime::Runtime {
         .enable_time()
         .build()
         .expect("runtime")
+}
+
+/// The node's start-up check in front of the store (driver.rs, as `build_node` calls it).  With `kill`
+/// it runs in a child process under `ulimit -f 0`: the kernel kills the child (SIGXFSZ) at its first
+/// write of more than zero bytes to a regular file -- a real crash between "version file truncated"
+/// and "version written", if start-up writes the file at all.  Returns (completed, error text).
+fn run_startup(root: &Path, storage: &Path, cur: &str, kill: bool) -> (bool, Option<String>) {
+    if !kill {
+        return match rs::check_and_wipe_storage_dir_if_necessary(root.to_path_buf(), storage.to_path_buf(), cur.to_string()) {
+            Ok(()) => (true, None),
+            Err(e) => (false, Some(e)),
+        };
+    }
+    let exe = std::env::current_exe().expect("own path");
+    let st = std::process::Command::new("sh")
+        .arg("-c")
+        .arg("ulimit -f 0; exec \"$0\" --startup \"$1\" \"$2\" \"$3\"")
+        .arg(exe)
+        .arg(root)
+        .arg(storage)
+        .arg(cur)
+        .stdin(std::process::Stdio::null())
+        .stdout(std::process::Stdio::null())
+        .stderr(std::process::Stdio::null())
+        .status()
+        .expect("spawn child");
+    (st.success(), if st.success() { None } else { Some(format!("{st:?}")) })
 }
 
 impl Case {
@@ -83,6 +111,10 @@ impl Case {
     }
 
     fn open(&mut self) -> World {
+        // what build_node does before the store exists: version-file check (wipes on a mismatch),
+        // then the storage directory is (re)created
+        let _ = run_startup(&self.root, &self.storage(), &self.version, false);
+        std::fs::create_dir_all(self.storage()).unwrap();
         let rt = new_rt();
         let (tx_evt, rx_evt) = mpsc::channel(100_000);
         let (tx_cmd, rx_cmd) = mpsc::channel(self.chan_cap.max(1));
@@ -258,6 +290,7 @@ fn dump(c: &Case, w: &World) -> Value {
         "range2": rs::get_farthest_replication_distance(s).map(|d| d.to_string()),
         "pay": rs::received_payment_count(s) as u64, "started": started, "metrics": metrics, "gets": gets,
         "max_records": rs::max_records(s) as u64, "cache_size": rs::cache_size(s) as u64,
+        "vfile": std::fs::read(c.root.join("network_key_version")).ok().map(|b| String::from_utf8_lossy(&b).to_string()),
     })
 }
 
@@ -270,7 +303,7 @@ fn put(c: &Case, w: &mut World, k: usize, v: usize, t: RecordType) -> Result<(),
 /// `OCrash tears`: snapshot the directory, find the real bytes of the first pending write of every
 /// key to tear (by running the pending tasks one at a time over a sentinel), then rebuild the
 /// directory as it was with the torn prefixes, drop everything in memory and open a new store.
-fn crash(c: &mut Case, w: World, tears: &[(usize, u64)]) -> World {
+fn crash(c: &mut Case, w: World, tears: &[(usize, u64)], kills: u64) -> World {
     let mut w = w;
     let storage = c.storage();
     let snap = list_dir(&storage);
@@ -328,6 +361,10 @@ fn crash(c: &mut Case, w: World, tears: &[(usize, u64)]) -> World {
             let _ = std::fs::remove_file(&metrics_path);
         }
     }
+    // start-up attempts of the same version that are killed at their first write, before the one that completes
+    for _ in 0..kills {
+        let _ = run_startup(&c.root, &c.storage(), &c.version, true);
+    }
     c.open()
 }
 
@@ -350,6 +387,7 @@ fn run_hist(case: &Value, base: &Path, serial: u64) -> Value {
         cache_size: case["cfg"]["cache_size"].as_u64().unwrap() as usize,
         max_value_bytes: case["cfg"].get("max_value_bytes").and_then(|x| x.as_u64()).map(|x| x as usize),
         chan_cap: case["cfg"].get("chan_cap").and_then(|x| x.as_u64()).unwrap_or(100_000) as usize,
+        version: "1".to_string(),
         hashes: vals.iter().map(|v| XorName::from_content(v)).collect(),
         names: keys.iter().map(rs::filename_of).collect(),
         keys,
@@ -519,7 +557,8 @@ fn run_hist(case: &Value, base: &Path, serial: u64) -> Value {
                 let tears: Vec<(usize, u64)> = o["tears"].as_array().map(|a| {
                     a.iter().map(|p| (p[0].as_u64().unwrap() as usize, p[1].as_u64().unwrap())).collect()
                 }).unwrap_or_default();
-                w = crash(&mut c, w, &tears);
+                let kills = o.get("kills").and_then(|x| x.as_u64()).unwrap_or(0);
+                w = crash(&mut c, w, &tears, kills);
                 json!(null)
             }
             other => json!({"error": format!("unknown op {other}")}),
@@ -556,11 +595,40 @@ fn run(case: &Value, base: &Path, serial: u64) -> Value {
                 Err(_) => json!({"kind": null, "is_chunk": null}),
             }
         }
+        "startup" => {
+            // the real check_and_wipe_storage_dir_if_necessary on a prepared directory
+            let root = base.join(format!("startup{serial}"));
+            let _ = std::fs::remove_dir_all(&root);
+            let storage = root.join("record_store");
+            std::fs::create_dir_all(&storage).unwrap();
+            let n = case["files"].as_u64().unwrap_or(0);
+            for i in 0..n {
+                std::fs::write(storage.join(format!("{i:064x}")), b"x").unwrap();
+            }
+            let vpath = root.join("network_key_version");
+            if let Some(b) = case.get("before").and_then(|x| x.as_str()) {
+                std::fs::write(&vpath, b.as_bytes()).unwrap();
+            }
+            let cur = case["cur"].as_str().unwrap();
+            let kill = case["kill"].as_bool().unwrap_or(false);
+            let (done, err) = run_startup(&root, &storage, cur, kill);
+            let after = std::fs::read(&vpath).ok().map(|b| String::from_utf8_lossy(&b).to_string());
+            let left = std::fs::read_dir(&storage).map(|rd| rd.flatten().count() as u64).unwrap_or(0);
+            let res = json!({"done": done, "err": err, "after": after, "left": left, "dir": storage.is_dir()});
+            let _ = std::fs::remove_dir_all(&root);
+            res
+        }
         other => json!({"error": format!("unknown kind {other}")}),
     }
 }
 
 fn main() {
+    let args: Vec<String> = std::env::args().collect();
+    if args.len() == 5 && args[1] == "--startup" {
+        // child mode of run_startup(kill = true)
+        let r = rs::check_and_wipe_storage_dir_if_necessary(PathBuf::from(&args[2]), PathBuf::from(&args[3]), args[4].clone());
+        std::process::exit(if r.is_ok() { 0 } else { 1 });
+    }
     std::panic::set_hook(Box::new(|_| {}));
     let base = std::env::var("C01_TMP")
         .map(PathBuf::from)
